@@ -31,6 +31,8 @@ def jobs(tier, seed):
         out.append({'name': 'regions-3x3-n%d-nonan' % n, 'shape': [3, 3], 'n': n, 'nan': False, 'domain': [0, 1]})
     for sym in ([[1, 2], [2, 3], [3, 1], [3, 2]], [[1, 0], [2, 0], [1, 4], [2, 3]]):
         out.append({'name': 'regions-4x6-three-labels-meet-%d%d' % (sym[0][0], sym[0][1]), 'shape': [4, 6], 'n': 8, 'nan': False, 'base': MEET, 'sym': sym, 'domain': [0, 1]})
+    for n in (4, 8):
+        out.append({'name': 'regions-2x2-n%d-int32' % n, 'shape': [2, 2], 'n': n, 'nan': False, 'dtype': 'int32'})
     out.append({'name': 'regions-invalid-neighbourhood', 'shape': [2, 2], 'n': 6, 'nan': False})
     if tier != 'quick':
         for n in (4, 8):
@@ -48,7 +50,8 @@ def body(ctx, job):
         for (y, x) in job['sym']:
             data[y, x] = ctx.real('d_%d_%d' % (y, x), nan=False)
     else:
-        data = ctx.array('d', (h, w), 'float64', nan=job['nan'])
+        dt = job.get('dtype', 'float64')
+        data = ctx.array('d', (h, w), dt, nan=job['nan'], **({'lo': -1, 'hi': 2} if dt[0] in 'iu' else {}))
     for v in data.flat_values():
         if sc.is_sym(v):
             ctx.assume(Or(isnan(v), *[v == k for k in job.get('domain', [-1, 0, 2])]))
